@@ -536,6 +536,29 @@ func c05PAE(c *Ctx, r *R) {
 				"acceptedKeys append is reachable without the usedKeyids duplicate test")
 		}
 	}
+	// the key id reported for an accepted signature is the VERIFIER's (Verifier.KeyID() / SHA256KeyID(Public())),
+	// never the id claimed inside the (attacker-supplied) signature: callers de-duplicate keys by this id
+	for _, al := range allocsOf(fn, "AcceptedKey") {
+		v, has := allocStores(al)["KeyID"]
+		if !has {
+			r.Bad("accepted-keyid-from-verifier", al.Pos(), "AcceptedKey is built without a KeyID")
+			continue
+		}
+		okK := true
+		for _, root := range eng.Roots(v) {
+			k, _, isCall := eng.RootCall(root)
+			switch {
+			case isCall && k.Method() == "KeyID" && k.RecvTypeName() == "Verifier":
+			case isCall && k.Name() == "internal/third_party/go-securesystemslib/dsse.SHA256KeyID":
+			default:
+				if s, isC := eng.ConstString(root); isC && s == "" {
+					continue
+				}
+				okK = false
+			}
+		}
+		r.Check(okK, "accepted-keyid-from-verifier", al.Pos(), "AcceptedKey.KeyID is the matched verifier's key id", "AcceptedKey.KeyID does not come from the matched verifier (Verifier.KeyID() / SHA256KeyID(Public())): the id claimed in the envelope signature is attacker-controlled, and callers use this id to count a key only once")
+	}
 	// provider removed after accepting
 	rm := eng.CallsTo(fn, false, "internal/third_party/go-securesystemslib/dsse.removeIndex")
 	r.Check(len(rm) >= 1, "provider-removed", vk.Pos(), "an accepting provider is removed from the unverified set", "accepting providers are no longer removed: one key could accept several signatures")
